@@ -13,6 +13,7 @@ import (
 	"os/exec"
 	"path/filepath"
 	"runtime/debug"
+	"runtime/pprof"
 	"sort"
 	"strconv"
 	"strings"
@@ -54,6 +55,7 @@ type Ctx struct {
 	Shard    int
 	Shards   int
 	Out      string // shard result file
+	ClaimDir string // directory used as a work queue shared by the shard workers
 	Workers  int
 	start    time.Time
 	deadline time.Time
@@ -291,9 +293,10 @@ func Main(id, level string, body func(c *Ctx)) {
 	out := flag.String("out", "", "shard result file (internal)")
 	budget := flag.Duration("budget", 0, "wall-clock budget")
 	workers := flag.Int("workers", 16, "worker count")
+	claim := flag.String("claim", "", "claim directory (internal)")
 	flag.Parse()
 	seed, _ := strconv.Atoi(envOr("VERIF_SEED", "0"))
-	c := &Ctx{ID: id, Level: level, Tier: *tier, Seed: seed, Replay: *replay, Out: *out, Workers: *workers,
+	c := &Ctx{ID: id, Level: level, Tier: *tier, Seed: seed, Replay: *replay, Out: *out, Workers: *workers, ClaimDir: *claim,
 		start: time.Now(), outcomes: map[string]int64{}, nontrivial: map[string]struct{}{}, viol: map[string]*Violation{},
 		extra: map[string]any{}, exhaustive: true, Shards: 1}
 	if *shard != "" {
@@ -304,6 +307,12 @@ func Main(id, level string, body func(c *Ctx)) {
 		b = Pick(c, 8*time.Minute, 40*time.Minute)
 	}
 	c.deadline = time.Now().Add(b)
+	if pf := os.Getenv("VERIF_CPUPROFILE"); pf != "" {
+		if f, err := os.Create(pf); err == nil {
+			_ = pprof.StartCPUProfile(f)
+			defer pprof.StopCPUProfile()
+		}
+	}
 	func() {
 		defer func() {
 			if r := recover(); r != nil {
@@ -316,6 +325,7 @@ func Main(id, level string, body func(c *Ctx)) {
 		c.writeShard()
 		return
 	}
+	pprof.StopCPUProfile()
 	os.Exit(c.Finish())
 }
 
@@ -422,6 +432,27 @@ func (c *Ctx) MergeShard(path string) error {
 	return nil
 }
 
+// Claim reports whether this worker should handle work item i: with a claim
+// directory the first worker to create the item's file owns it (dynamic load
+// balancing), otherwise items are dealt round-robin.
+func (c *Ctx) Claim(i int) bool { return c.ClaimKey(fmt.Sprintf("item-%d", i), i) }
+
+// ClaimKey is Claim for an arbitrary key; n is used for the round-robin fallback.
+func (c *Ctx) ClaimKey(key string, n int) bool {
+	if c.ClaimDir == "" {
+		if n < 0 {
+			n = -n
+		}
+		return c.Shards <= 1 || n%c.Shards == c.Shard
+	}
+	f, err := os.OpenFile(filepath.Join(c.ClaimDir, key), os.O_CREATE|os.O_EXCL|os.O_WRONLY, 0o644)
+	if err != nil {
+		return false
+	}
+	f.Close()
+	return true
+}
+
 // IsShard reports whether this process is a shard worker.
 func (c *Ctx) IsShard() bool { return c.Out != "" }
 
@@ -445,13 +476,13 @@ func (c *Ctx) SpawnShards(n int, extra ...string) {
 	for i := 0; i < n; i++ {
 		go func(i int) {
 			out := filepath.Join(dir, fmt.Sprintf("shard%d.json", i))
-			args := []string{"-tier", c.Tier, "-shard", fmt.Sprintf("%d/%d", i, n), "-out", out, "-budget", remaining.String()}
+			args := []string{"-tier", c.Tier, "-shard", fmt.Sprintf("%d/%d", i, n), "-out", out, "-budget", remaining.String(), "-claim", dir}
 			args = append(args, extra...)
 			cmd := exec.Command(os.Args[0], args...)
 			var buf strings.Builder
 			cmd.Stdout = &buf
 			cmd.Stderr = &buf
-			cmd.Env = append(os.Environ(), "GOMAXPROCS=2")
+			cmd.Env = append(os.Environ(), "GOMAXPROCS=1")
 			err := cmd.Run()
 			ch <- res{i, err, buf.String()}
 		}(i)
@@ -594,7 +625,8 @@ func (c *Ctx) writeEvidence(nViol int, knownSeen []string, wall float64) {
 	cov["distinct_outcomes"] = len(c.outcomes)
 	cov["outcomes"] = outs
 	cov["scenarios"] = len(c.scenarios)
-	if len(c.scenarios) <= 400 {
+	if len(c.scenarios) <= 2000 {
+		sort.Strings(c.scenarios)
 		cov["scenario_list"] = c.scenarios
 	}
 	cov["known_findings_seen"] = knownSeen
